@@ -39,7 +39,16 @@ func freshTxs(rt *chainx.RichTree, r *hx.Rng, st *state.StateDB, alive []chainx.
 			return chainx.Contract{}, false
 		}
 		w := func(n uint64) []byte { return common.BigToHash(new(big.Int).SetUint64(n)).Bytes() }
-		switch r.Intn(5) {
+		switch r.Intn(6) {
+		case 5:
+			switch r.Intn(3) {
+			case 0:
+				raw = types.NewTransaction(nonce, chainx.CallValueAddr, big.NewInt(int64(1+r.Intn(500))), 120000, price, nil)
+			case 1:
+				raw = types.NewContractCreation(nonce, big.NewInt(int64(1+r.Intn(500))), 150000, price, chainx.CodeCallValue)
+			default:
+				raw = types.NewTransaction(nonce, chainx.DelegatorAddr, big.NewInt(int64(1+r.Intn(500))), 150000, price, nil)
+			}
 		case 0:
 			raw = types.NewContractCreation(nonce, big.NewInt(int64(r.Intn(9))), 200000, price, chainx.Deployer(chainx.CodeWriter))
 		case 1:
